@@ -118,6 +118,18 @@ func Stdin() *File {
 	return stdinFile
 }
 
+// resolve follows symbolic links of the virtual file system (a few levels).
+func resolve(name string) string {
+	for i := 0; i < 8; i++ {
+		fsp := lookup(name)
+		if fsp == nil || fsp.SymlinkTo == "" {
+			return name
+		}
+		name = fsp.SymlinkTo
+	}
+	return name
+}
+
 func lookup(name string) *FileSpec {
 	if step.Files == nil {
 		return nil
@@ -137,6 +149,7 @@ func Open(name string) (*File, error) {
 		}
 		return &File{name: name, pass: fp}, nil
 	}
+	name = resolve(name)
 	if c := findCreated(name); c != nil {
 		// the path was created (or truncated) earlier by this very process
 		b, err := os.ReadFile(c.Real)
@@ -207,6 +220,14 @@ func OpenFile(name string, flag int, perm os.FileMode) (*File, error) {
 	}
 	if name == "" {
 		return nil, &fs.PathError{Op: "open", Path: name, Err: syscall.ENOENT}
+	}
+	if l := lookup(name); l != nil && l.SymlinkTo != "" {
+		if flag&syscall.O_NOFOLLOW != 0 {
+			journal.Faults = append(journal.Faults, "open:ELOOP:"+name)
+			return nil, &fs.PathError{Op: "open", Path: name, Err: syscall.ELOOP}
+		}
+		journal.Faults = append(journal.Faults, "open:SYMLINK:"+name)
+		name = resolve(name)
 	}
 	fsp := lookup(name)
 	if fsp != nil && fsp.CreateErr != "" {
@@ -610,6 +631,7 @@ func Stat(name string) (os.FileInfo, error) {
 	if !active {
 		return os.Stat(name)
 	}
+	name = resolve(name)
 	if c := findCreated(name); c != nil {
 		if fi, err := os.Stat(c.Real); err == nil {
 			return fileInfo{name: name, size: fi.Size()}, nil
